@@ -113,3 +113,29 @@ Proof.
   intros Hz. unfold open_put_c, open_put_64k.
   rewrite !(open_put_exact _ c 4) by lia. reflexivity.
 Qed.
+
+(* ---------------- the reader's side (uper_open_type_get_simple collects the fragments: Ext.get_open_bytes) ---------------- *)
+
+(* what the loop writes is reassembled to the contents, whatever follows in the stream *)
+Theorem open_put_c_reassembles c r : bytes_ok c ->
+  get_open_bytes (open_put_c c ++ r) = Some (c, r).
+Proof.
+  intros H. rewrite open_put_c_is_counted. exact (get_open_bytes_open_type c r H).
+Qed.
+
+(* the seeded rule at the end of a stream: after the 16K / 32K / 48K fragment the reader wants another length and starves *)
+Theorem open_put_64k_starves c m : 1 <= m <= 3 -> zlen c = m * 16384 -> bytes_ok c ->
+  get_open_bytes (open_put_64k c) = None.
+Proof.
+  intros Hm Hz Hok. unfold open_put_64k. rewrite (open_put_exact _ c m) by lia.
+  unfold eom_64k. replace (m * 16384 =? 65536) with false by lia.
+  rewrite andb_false_r, app_nil_r.
+  unfold get_open_bytes. rewrite get_counted_S.
+  rewrite get_length_frag by lia.
+  assert (Hk : Z.to_nat (m * 16384) = length c) by (unfold zlen in *; lia).
+  rewrite Hk. rewrite <- (bytes_bits_concat c).
+  rewrite <- (app_nil_r (concat (map byte_bits c))).
+  rewrite (get_items_rt get_octet c (map byte_bits c) (octets_inv c Hok) []).
+  rewrite app_nil_r.
+  destruct (length (nbits 8 (192 + m) ++ concat (map byte_bits c))) as [|f]; reflexivity.
+Qed.
